@@ -148,6 +148,24 @@ impl<'a> Gen<'a> {
         s
     }
 
+    /// An alphabetic constant: `c, `\c (control symbol) or `\c followed by a space (control word).
+    pub fn alpha_const(&mut self) -> String {
+        match self.rng.below(3) {
+            0 => {
+                let c = *self.rng.pick(ALPHA_CHARS);
+                format!("`{}{}", c as char, self.opt_space(1, 3))
+            }
+            1 => {
+                let c = *self.rng.pick(ALPHA_CS_SYMBOLS);
+                format!("`\\{}{}", c as char, self.opt_space(1, 3))
+            }
+            _ => {
+                let c = *self.rng.pick(b"abcdefghijklmnopqrstuvwxyzABCDEFGHIJKLMNOPQRSTUVWXYZ");
+                format!("`\\{} ", c as char)
+            }
+        }
+    }
+
     pub fn reg_number(&mut self, r: usize) -> String {
         match self.rng.below(12) {
             0 => format!("{r} "),
@@ -177,6 +195,7 @@ impl<'a> Gen<'a> {
                 let r = self.reg("count");
                 format!("\\the{r}")
             }
+            5 => self.alpha_const(),
             _ => {
                 let mag = self.int_magnitude();
                 self.int_const_of(mag)
@@ -325,7 +344,8 @@ impl<'a> Gen<'a> {
                 s
             }
             3 => format!("\\the{}", self.reg("count")),
-            4..=8 => {
+            4 => self.alpha_const(),
+            5..=8 => {
                 // integer only
                 let mag = self.int_part_for(per);
                 let zeros = if self.rng.chance(1, 8) { "00" } else { "" };
